@@ -33,7 +33,7 @@ def budget(tier):
     return {"examples": 160000, "shards": 16}
 
 
-DRIVES = ["start", "start", "start", "rut-beyond", "ruti-end", "ruti-beyond", "rut-clock-first", "steps"]
+DRIVES = ["start", "start", "start", "rut-beyond", "ruti-end", "ruti-beyond", "rut-clock-first", "steps", "after-cleanup"]
 
 
 def strategy(tier):
@@ -119,6 +119,23 @@ def run_case(case):
     ref.run()
     h = Harness(case)
     try:
+        if case.get("drive") == "after-cleanup":
+            # the simulator ran a SHORTER replication of the same model before and was cleaned up: events of that
+            # replication beyond its horizon are not events of this one
+            rep0 = dict(case["rep"])
+            ln = rep0["length"]
+            if isinstance(ln, int):
+                rep0["length"] = max(1, ln // 2)
+            elif isinstance(ln, str):
+                rep0["length"] = (float.fromhex(ln) / 2).hex()
+            else:
+                rep0["length"] = [(float.fromhex(ln[0]) / 2).hex(), ln[1]]
+            h.initialize(rep0)
+            h.run_piece(["start"])
+            h.sim.cleanup()
+            from vlib.simharness import Recorder
+            h.rec = Recorder()
+            case = dict(case, drive="start")
         h.initialize()
         if case.get("drive") == "rut-clock-first":
             # an exclusive bound equal to the clock: events AT the clock are outside that horizon, nothing may run
